@@ -91,11 +91,7 @@ theorem outcome_congr (rev : Rev) (w w' : World) (cur : Option Host) (d : Decl)
     simp only [] at hsame ⊢
     cases hc : ing.className with
     | none => simp [hc]
-    | some c =>
-      simp only [hc] at hsame ⊢
-      have := hsame _ rfl ⟨⟨.cls, c⟩, .cls (w.findCls c)⟩ (by simp)
-      simp [World.read] at this
-      simp [this]
+    | some c => simp [hc]
   | tlsHost secret =>
     unfold outcome at hsame ⊢
     simp only [] at hsame ⊢
